@@ -29,7 +29,10 @@ EXTRA = ["7", "-7", "-0", "70", "-70", "0.7", "-0.7", "7.", ".7", "7.7a", "-", "
          "65535", "65536", "00065535", "99999", "2147483647", "2147483648", "-2147483647", "-2147483648",
          "02147483647", "99999999999", "a\nb", "\na", "a \n b", "ab\n", "a\tb", "a  b", "a   b", "  a b  ",
          "ab0ab", "aab0ab", "a0b0a0", "aab0abb", "aa0bb", "a a 0 b b", "aabbab", "a0a0a0a", "0 0 0", "a a a a",
-         "ab ab ab", "a ab", "a a", "a a a"]
+         "ab ab ab", "a ab", "a a", "a a a",
+         # the numeric parsers are lexemes as a whole: nothing may be skipped after the sign, around the dot or between digits
+         "- 0.7", "-  7.7", "-\t0.7", "0 .7", "0. 7", "7 . 7", "7 0.7", "0.7 0", "-0 .7", " 0.7", "0.7 ", "- 0.7a", "0.7 a", "-0.7 a",
+         "0.70", "00.7", "0.0", "-0.0", "0..7", "0.7.7", "-.7", "-7.", "0.-7", "+0.7", "7 0", "- 70", "-7 0", "6553 5", "-0 7"]
 
 
 def gen_dir(ctx):
